@@ -23,14 +23,21 @@ theorem onError_early_other : onError "early" .other = some ⟨2, false, false, 
 theorem stdinTail_zero : evalCode PagerShape.stdinTail 0 = some 0 := by decide
 theorem subTail_status (st : Int) : evalCode PagerShape.subTail st = some st := by
   simp [evalCode, PagerShape.subTail]
-theorem spawnFail_code : evalCode PagerShape.spawnFailCode 0 = some 2 := by decide
-theorem stdinTty_code : evalCode PagerShape.stdinTtyCode 0 = some 2 := by decide
-theorem diffArgs_code : evalCode PagerShape.diffArgsErrCode 0 = some 2 := by decide
+/-- the error exits of `run_app` outside the rendering are *returns* (message, status 2): these
+    three `decide`s are where a `return Ok(code)` turned into `fatal(..)` / `process::exit(..)`
+    stops the proofs from checking -/
+theorem spawnFail_exit : (spawnFailExit.bind errExit) = some ⟨[Event.message], 2, false, true⟩ := by decide
+theorem stdinTty_exit : errExit PagerShape.stdinTtyExit = some ⟨[Event.message], 2, false, true⟩ := by decide
+theorem diffArgs_exit : errExit PagerShape.diffArgsErrExit = some ⟨[Event.message], 2, false, true⟩ := by decide
+/-- after `from_mode`, outside the rendering, the only exit primitives `run_app` and the helpers it
+    calls (`build_diff_cmd`, …) contain are `delta_unreachable` guards -/
+theorem setupExits_unreachable :
+    PagerShape.setupPhaseExits.all (fun e => e.2.1 == "unreachable") = true := by decide
+theorem fatalExitCode_two : PagerShape.fatalExitCode = 2 := by decide
 theorem dropWaits : PagerShape.dropWaitsForPager = true := by decide
 theorem subStatusFromCode_true : PagerShape.subStatusFromCode = true := by decide
 theorem subNoStatus_true : PagerShape.subNoStatusIsErrorCode = true := by decide
 theorem subNoStatusPrints_true : PagerShape.subNoStatusPrints = true := by decide
-theorem diffCmdErrPassesCode_true : PagerShape.diffCmdErrPassesCode = true := by decide
 theorem errorExitCode_two : PagerShape.errorExitCode = 2 := by decide
 
 /-! ### events of the body -/
@@ -55,10 +62,40 @@ theorem effectiveFault_of_lt (m : Mode) (p : Bool) (w pos : Nat) (k : FaultKind)
     effectiveFault ⟨m, p, w, some ⟨pos, k⟩⟩ = some ⟨pos, k⟩ := by
   simp [effectiveFault, h]
 
+theorem abortBody_unreachable (pre : List Event) : abortBody "unreachable" pre = none := by
+  simp [abortBody]
+
+/-- No entry of `setupPhaseExits` gives a run: they are all `delta_unreachable` guards. -/
+theorem setupAbort_none (i : Nat) (pager : Bool) (writes : Nat) (fault : Option Fault) :
+    body ⟨.setupAbort i, pager, writes, fault⟩ = none := by
+  simp only [body]
+  cases h : PagerShape.setupPhaseExits[i]? with
+  | none => rfl
+  | some e =>
+    obtain ⟨site, kind, via⟩ := e
+    have hm : (site, kind, via) ∈ PagerShape.setupPhaseExits := List.mem_of_getElem? h
+    have := List.all_eq_true.mp setupExits_unreachable _ hm
+    simp at this
+    subst this
+    exact abortBody_unreachable []
+
+def Mode.isRenderAbort : Mode → Bool
+  | .renderAbort _ => true
+  | _ => false
+
+theorem abortBody_spec (kind : String) (pre : List Event) (b : Body) (h : abortBody kind pre = some b) :
+    b = ⟨pre ++ [Event.message], PagerShape.fatalExitCode, false, false⟩ := by
+  unfold abortBody at h
+  split at h
+  · simp at h; exact h.symm
+  · simp at h
+
 /-- Every event of the body is a body event, and when the mode runs with an `OutputType` the
-    body returns to `run_app`'s end (so that `output_type` is dropped). -/
+    body returns to `run_app`'s end (so that `output_type` is dropped) - unless an exit primitive
+    reachable through the rendering call is executed (`renderAbort`). -/
 theorem body_spec (s : Scenario) (b : Body) (h : body s = some b) :
-    b.events.all Event.isBodyEvent = true ∧ (usesOutputType s.mode = true → b.returns = true) := by
+    b.events.all Event.isBodyEvent = true ∧
+      (usesOutputType s.mode = true → s.mode.isRenderAbort = false → b.returns = true) := by
   have hr := renderEvents_body s
   obtain ⟨mode, pager, writes, fault⟩ := s
   cases mode with
@@ -73,17 +110,35 @@ theorem body_spec (s : Scenario) (b : Body) (h : body s = some b) :
       cases k <;> simp [hf, onError_stdin_bp, onError_stdin_other] at h <;> subst h <;>
         simp [hr, List.all_append, msg, Event.isBodyEvent]
   | stdinTty =>
-    simp [body, stdinTty_code] at h
+    simp [body, stdinTty_exit] at h
     subst h; simp [Event.isBodyEvent]
   | diffArgsError =>
-    simp [body, diffArgs_code, diffCmdErrPassesCode_true] at h
+    simp [body, diffArgs_exit] at h
     subst h; simp [Event.isBodyEvent]
+  | setupAbort i =>
+    rw [setupAbort_none] at h
+    cases h
+  | renderAbort i =>
+    simp only [body] at h
+    cases hk : PagerShape.renderPhaseExits[i]? with
+    | none => simp [hk] at h
+    | some e =>
+      obtain ⟨site, kind⟩ := e
+      simp only [hk] at h
+      have := abortBody_spec _ _ _ h
+      subst this
+      simp [List.all_append, List.all_replicate, Event.isBodyEvent, Mode.isRenderAbort]
   | sub kind spawnOk status n =>
     simp only [body] at h
     cases spawnOk with
     | false =>
-      simp [spawnFail_code] at h
-      subst h; simp [Event.isBodyEvent]
+      have hs := spawnFail_exit
+      cases hx : spawnFailExit with
+      | none => simp [hx] at hs
+      | some x =>
+        simp [hx] at hs h
+        rw [hs] at h
+        cases h; simp [Event.isBodyEvent]
     | true =>
       cases hf : effectiveFault ⟨.sub kind true status n, pager, writes, fault⟩ with
       | some f =>
